@@ -47,6 +47,9 @@ pub(crate) enum AttrC {
     Raw { flags: u8, code: u8, ext: bool, value: Vec<u8> },
     Reach { flags: u8, ext: bool, fam: usize, nh: Vec<u8>, nlri: Vec<Val> },
     Unreach { flags: u8, ext: bool, fam: usize, nlri: Vec<Val> },
+    /// MP_UNREACH_NLRI of an AFI/SAFI routecore has no NLRI type for: the octets after AFI/SAFI
+    /// as they are (only `upd` requests; the Lean content type has no such constructor)
+    UnreachU { flags: u8, ext: bool, afi: u16, safi: u8, body: Vec<u8> },
 }
 
 #[derive(Clone, Debug)]
@@ -76,15 +79,16 @@ fn attr_value(four: bool, a: &AttrC) -> Vec<u8> {
             for n in nlri { o.extend(ref_enc(fam_shape(*fam), n)); }
             o
         }
+        AttrC::UnreachU { afi, safi, body, .. } => { let mut o = afi.to_be_bytes().to_vec(); o.push(*safi); o.extend(body); o }
     }
 }
 fn attr_code(a: &AttrC) -> u8 {
-    match a { AttrC::Val { v, .. } => v.code(), AttrC::Path { code, .. } => *code, AttrC::Raw { code, .. } => *code, AttrC::Reach { .. } => 14, AttrC::Unreach { .. } => 15 }
+    match a { AttrC::Val { v, .. } => v.code(), AttrC::Path { code, .. } => *code, AttrC::Raw { code, .. } => *code, AttrC::Reach { .. } => 14, AttrC::Unreach { .. } | AttrC::UnreachU { .. } => 15 }
 }
 /// flags octet on the wire (EXTENDED_LEN set exactly when the two-octet length is used)
 fn attr_flags(a: &AttrC) -> u8 {
     let (f, e) = match a { AttrC::Val { flags, ext, .. } | AttrC::Path { flags, ext, .. } | AttrC::Raw { flags, ext, .. }
-        | AttrC::Reach { flags, ext, .. } | AttrC::Unreach { flags, ext, .. } => (*flags, *ext) };
+        | AttrC::Reach { flags, ext, .. } | AttrC::Unreach { flags, ext, .. } | AttrC::UnreachU { flags, ext, .. } => (*flags, *ext) };
     (f & 0xef) | if e { 0x10 } else { 0 }
 }
 fn enc_attr(four: bool, a: &AttrC) -> Vec<u8> {
@@ -149,7 +153,10 @@ pub(crate) fn expect(cfg: &Cfg, c: &Content) -> String {
             AttrC::Val { v, .. } => format!("typed:{}", show_v(v)),
             AttrC::Path { code: 2, segs, .. } => format!("typed:aspath:{}", path_text(segs, four)),
             AttrC::Path { segs, .. } => format!("typed:as4path:{}", path_text(segs, true)),
-            _ => format!("unimpl:{}:{}:{}", attr_flags(a), attr_code(a), hex(&v)),
+            AttrC::Raw { .. } => format!("unimpl:{}:{}:{}", attr_flags(a), attr_code(a), hex(&v)),
+            // how to_owned() presents MP_REACH_NLRI / MP_UNREACH_NLRI (today: as unrecognised attributes) is not
+            // content; flags, code and length are, and the NLRI are judged through mw / ma
+            _ => "*".to_string(),
         };
         format!("{}:{}:{}:{}", attr_flags(a), attr_code(a), v.len(), owned)
     }).collect();
@@ -158,27 +165,49 @@ pub(crate) fn expect(cfg: &Cfg, c: &Content) -> String {
     let ca = items(Shape::Pfx, &c.ann);
     put("cw", lst(&cw));
     put("ca", lst(&ca));
+    // the first MP_UNREACH_NLRI is of a family outside the 13: the property speaks of the NLRI of the
+    // supported families only, so of the NLRI accessors nothing is expected - but of End-of-RIB it is
+    let unsup = c.attrs.iter().find(|a| attr_code(a) == 15).map(|a| matches!(a, AttrC::UnreachU { .. })).unwrap_or(false);
     let reach = c.attrs.iter().find_map(|a| if let AttrC::Reach { fam, nh, nlri, .. } = a { Some((*fam, nh.clone(), nlri.clone())) } else { None });
     let unreach = c.attrs.iter().find_map(|a| if let AttrC::Unreach { fam, nlri, .. } = a { Some((*fam, nlri.clone())) } else { None });
     let ty = |fam: usize| format!("{}{}", FAM_NAMES[fam].0, if cfg_rx(cfg, FAM_NAMES[fam].1) { "Addpath" } else { "" });
     let conv_ty = format!("Ipv4Unicast{}", if cfg_rx(cfg, (1, 1)) { "Addpath" } else { "" });
     let mw: Vec<String> = unreach.as_ref().map(|(f, l)| items(fam_shape(*f), l)).unwrap_or_default();
     let ma: Vec<String> = reach.as_ref().map(|(f, _, l)| items(fam_shape(*f), l)).unwrap_or_default();
-    put("mw", match &unreach { Some((f, _)) => format!("{}:{}", ty(*f), lst(&mw)), None => "none".into() });
-    put("ma", match &reach { Some((f, _, _)) => format!("{}:{}", ty(*f), lst(&ma)), None => "none".into() });
-    put("w", lst(&[mw.clone(), cw.clone()].concat()));
-    put("a", lst(&[ma.clone(), ca.clone()].concat()));
-    put("wv", format!("ok:{}", lst(&[cw.clone(), mw.clone()].concat())));
-    put("av", format!("ok:{}", lst(&[ca.clone(), ma.clone()].concat())));
-    put("fams", format!("{},{},{},{}",
-        if c.wd.is_empty() { "-".into() } else { conv_ty.clone() }, if c.ann.is_empty() { "-".into() } else { conv_ty.clone() },
-        unreach.as_ref().map(|(f, _)| ty(*f)).unwrap_or("-".into()), reach.as_ref().map(|(f, _, _)| ty(*f)).unwrap_or("-".into())));
-    // End-of-RIB (RFC 4724 2): the empty UPDATE, or an UPDATE holding nothing but an empty MP_UNREACH_NLRI
-    let carries_nlri = !c.wd.is_empty() || !c.ann.is_empty() || !mw.is_empty() || !ma.is_empty();
+    if !unsup {
+        put("mw", match &unreach { Some((f, _)) => format!("{}:{}", ty(*f), lst(&mw)), None => "none".into() });
+        put("ma", match &reach { Some((f, _, _)) => format!("{}:{}", ty(*f), lst(&ma)), None => "none".into() });
+        put("w", lst(&[mw.clone(), cw.clone()].concat()));
+        put("a", lst(&[ma.clone(), ca.clone()].concat()));
+        put("wv", format!("ok:{}", lst(&[cw.clone(), mw.clone()].concat())));
+        put("av", format!("ok:{}", lst(&[ca.clone(), ma.clone()].concat())));
+        // typed_withdrawals::<T> / typed_announcements::<T>, for the NLRI type T the message itself has for
+        // the section (family + the session's ADD-PATH setting for it): the items of the section. Nothing is
+        // said of IPv4 unicast when it is in the conventional AND the MP section (the accessor has one answer).
+        let typed = |conv: &[String], mp: Option<(usize, &Vec<String>)>| -> String {
+            let mut parts: Vec<String> = Vec::new();
+            let both = !conv.is_empty() && matches!(mp, Some((0, _)));
+            if !conv.is_empty() { parts.push(if both { "Ipv4Unicast:*".to_string() } else { format!("{}:{}", conv_ty, lst(conv)) }); }
+            if let Some((f, l)) = mp { if !both { parts.push(format!("{}:{}", ty(f), lst(l))); } }
+            if parts.is_empty() { "-".into() } else { parts.join("&") }
+        };
+        put("tw", typed(&cw, unreach.as_ref().map(|(f, _)| (*f, &mw))));
+        put("ta", typed(&ca, reach.as_ref().map(|(f, _, _)| (*f, &ma))));
+        put("fams", format!("{},{},{},{}",
+            if c.wd.is_empty() { "-".into() } else { conv_ty.clone() }, if c.ann.is_empty() { "-".into() } else { conv_ty.clone() },
+            unreach.as_ref().map(|(f, _)| ty(*f)).unwrap_or("-".into()), reach.as_ref().map(|(f, _, _)| ty(*f)).unwrap_or("-".into())));
+    }
+    // End-of-RIB (RFC 4724 2): the empty UPDATE, or an UPDATE holding nothing but an MP_UNREACH_NLRI without
+    // withdrawn routes. "Carries NLRI" is a fact about the octets: a non-empty conventional section, NLRI in
+    // an MP_REACH_NLRI, octets after AFI/SAFI in an MP_UNREACH_NLRI - of ANY family, supported or not.
+    let unsup_body = c.attrs.iter().any(|a| matches!(a, AttrC::UnreachU { body, .. } if !body.is_empty()));
+    let carries_nlri = !c.wd.is_empty() || !c.ann.is_empty() || !mw.is_empty() || !ma.is_empty() || unsup_body;
     let eor = if c.wd.is_empty() && c.ann.is_empty() && c.attrs.is_empty() { "Ipv4Unicast".to_string() }
-        else if let ([AttrC::Unreach { fam, nlri, .. }], true, true) = (&c.attrs[..], c.wd.is_empty(), c.ann.is_empty()) {
-            if nlri.is_empty() { afisafi_name(FAM_NAMES[*fam].1) } else { "-".into() } }
-        else if carries_nlri { "-".into() } else { "?".into() };
+        else if carries_nlri { "-".into() }
+        else if let [AttrC::Unreach { fam, .. }] = &c.attrs[..] { afisafi_name(FAM_NAMES[*fam].1) }
+        // the marker of a family outside the 13: if it is recognised, then for that family
+        else if let [AttrC::UnreachU { afi, safi, .. }] = &c.attrs[..] { format!("-or-{}", afisafi_name((*afi, *safi))) }
+        else { "?".into() };
     put("eor", eor);
     let find = |code: u8| c.attrs.iter().find(|a| attr_code(a) == code);
     let val = |code: u8| find(code).map(|a| attr_value(four, a));
@@ -209,6 +238,17 @@ pub(crate) fn expect(cfg: &Cfg, c: &Content) -> String {
     }
     put("all", if all.is_empty() { "-".into() } else { all.join(";") });
     g.join("|")
+}
+
+/// `tw` / `ta`: every part the content determines is reported as it is (`Name:*` = the family may be
+/// reported, its items are not judged), and no NLRI is reported for a family nothing was encoded for.
+/// The reading of the section's octets under the other ADD-PATH setting is not content and is not judged.
+fn typed_ok(want: &str, got: &str) -> bool {
+    let parts = |s: &str| -> Vec<(String, String)> { if s == "-" { vec![] } else { s.split('&').filter_map(|p| p.split_once(':').map(|(a, b)| (a.to_string(), b.to_string()))).collect() } };
+    let fam = |n: &str| n.strip_suffix("Addpath").unwrap_or(n).to_string();
+    let (w, g) = (parts(want), parts(got));
+    w.iter().all(|(n, l)| l == "*" || g.iter().any(|(n2, l2)| n2 == n && l2 == l))
+        && g.iter().all(|(n2, _)| w.iter().any(|(n, _)| fam(n) == fam(n2)))
 }
 
 fn fnv(s: &str) -> String {
@@ -244,6 +284,7 @@ fn attr_spec(a: &AttrC, hop_form: bool) -> String {
         AttrC::Raw { code, value, .. } => format!("r~{}~{}~{}", fl, code, hex(value)),
         AttrC::Reach { fam, nh, nlri, .. } => format!("m~{}~{}~{}~{}", fl, FAM_NAMES[*fam].0, hex(nh), lst(&items(fam_shape(*fam), nlri))),
         AttrC::Unreach { fam, nlri, .. } => format!("u~{}~{}~{}", fl, FAM_NAMES[*fam].0, lst(&items(fam_shape(*fam), nlri))),
+        AttrC::UnreachU { .. } => unreachable!("no `enc` request is made for an MP_UNREACH_NLRI of an unsupported family"),
     }
 }
 
@@ -418,14 +459,19 @@ pub(crate) fn gen_case(rng: &mut Rng, fam_hint: Option<usize>, max: usize) -> (C
     if rng.chance(1, 10) { ap.push(((rng.below(40) as u16, rng.u8()), 'b')); }
     let cfg: Cfg = (four, ap);
     // sections
-    let nconv = |rng: &mut Rng| match rng.below(5) { 0 | 1 => 0, 2 => 1, _ => rng.usize(0, 8) };
+    // (now and then a large section: many NLRI survive only where the size limit is 4096)
+    let nconv = |rng: &mut Rng| match rng.below(5) { 0 | 1 => 0, 2 => 1, _ => if max > 1000 && rng.chance(1, 12) { rng.usize(30, 400) } else { rng.usize(0, 8) } };
     let k = nconv(rng); let wd = gen_nlri(rng, &cfg, 0, k);
     let k = nconv(rng); let ann = gen_nlri(rng, &cfg, 0, k);
     let mut attrs: Vec<AttrC> = Vec::new();
     let nkinds = match rng.below(4) { 0 => 0, 1 => rng.usize(1, 3), _ => rng.usize(0, 12) };
     let mut kinds: Vec<u64> = (0..20).collect();
     for i in (1..kinds.len()).rev() { let j = rng.usize(0, i); kinds.swap(i, j); }
-    for kind in kinds.into_iter().take(nkinds) {
+    // now and then an attribute type occurs twice (RFC 7606 3.g: all but the first are to be
+    // discarded - the getters report the first; the attribute sequence reports both)
+    let mut seq: Vec<u64> = Vec::new();
+    for kind in kinds.into_iter().take(nkinds) { seq.push(kind); if rng.chance(1, 12) { seq.push(kind); } }
+    for kind in seq {
         if kind == 1 || kind == 11 {
             let code = if kind == 1 { 2 } else { 17 };
             let segs = small_asn_segs(rng, four || code == 17);
@@ -444,8 +490,11 @@ pub(crate) fn gen_case(rng: &mut Rng, fam_hint: Option<usize>, max: usize) -> (C
         let code = loop { let c = rng.u8(); if canon_flags(c).is_none() && c != 14 && c != 15 && !attrs.iter().any(|a| attr_code(a) == c) { break c; } };
         let n = match rng.below(4) { 0 => 0, 1 => 255, 2 => 256, _ => rng.usize(0, 20) };
         attrs.push(AttrC::Raw { flags: rng.u8() & 0xe0, code, ext: n > 255 || rng.chance(1, 4), value: rng.bytes(n) });
+        if rng.chance(1, 12) { let n = rng.usize(0, 9); attrs.push(AttrC::Raw { flags: rng.u8() & 0xe0, code, ext: rng.chance(1, 4), value: rng.bytes(n) }); }
     }
-    let nmp = |rng: &mut Rng| match rng.below(6) { 0 => 0, 1 => 1, _ => rng.usize(1, 6) };
+    // the repeated ones are not always next to each other
+    if attrs.len() > 2 && rng.chance(1, 2) { let i = rng.usize(0, attrs.len() - 1); let a = attrs.remove(i); let j = rng.usize(0, attrs.len()); attrs.insert(j, a); }
+    let nmp = |rng: &mut Rng| match rng.below(6) { 0 => 0, 1 => 1, _ => if max > 1000 && rng.chance(1, 12) { rng.usize(20, 150) } else { rng.usize(1, 6) } };
     if let Some(f) = mp_fam {
         let k = nmp(rng); let nlri = gen_nlri(rng, &cfg, f, k);
         let pos = rng.usize(0, attrs.len());
@@ -460,6 +509,13 @@ pub(crate) fn gen_case(rng: &mut Rng, fam_hint: Option<usize>, max: usize) -> (C
     for a in attrs.iter_mut() {
         let n = attr_value(four, a).len();
         if let AttrC::Reach { ext, .. } | AttrC::Unreach { ext, .. } = a { *ext = n > 255 || rng.chance(1, 3); }
+    }
+    // an MP attribute that occurs twice occurs with the same content (the decoder takes the NLRI
+    // from the first and the section's ADD-PATH flag from the family of the last)
+    if rng.chance(1, 12) {
+        if let Some(i) = attrs.iter().position(|a| matches!(a, AttrC::Reach { .. } | AttrC::Unreach { .. })) {
+            let a = attrs[i].clone(); let j = rng.usize(0, attrs.len()); attrs.insert(j, a);
+        }
     }
     let mut c = Content { wd, attrs, ann };
     // keep within the PDU limit: drop attributes / NLRI until it fits
@@ -512,6 +568,37 @@ impl Prop for C01 {
             out.push(case_line(&cfg, &c));
             out.push(enc_line(&cfg, &c, extra % 2 == 1));
         } } }
+        // MP_UNREACH_NLRI of families outside the 13 (whose iterator yields nothing whatever the attribute
+        // holds): with withdrawn routes it is no End-of-RIB (F22b); without, it is that family's marker or none
+        for (afi, safi) in [(1u16, 5u8), (1, 3), (1, 129), (2, 129), (3, 1), (25, 66), (16388, 71), (0, 0), (65535, 255), (1, 134), (2, 5)] {
+            for variant in 0..6 {
+                let mut cfg: Cfg = (variant % 2 == 0, if variant >= 3 { vec![((afi, safi), 'b')] } else { vec![] });
+                let body = match variant { 0 => vec![], 1 => vec![0x18, 10, 0, 0], 2 => vec![0], 3 => rng.bytes(1), 4 => { let n = rng.usize(2, 40); rng.bytes(n) } _ => vec![] };
+                let mut c = Content { wd: vec![], attrs: vec![AttrC::UnreachU { flags: 0x80, ext: variant == 2, afi, safi, body }], ann: vec![] };
+                if variant == 5 {
+                    // an empty one next to something that carries NLRI, or next to other attributes
+                    match rng.below(4) {
+                        0 => c.ann = gen_nlri(rng, &cfg, 0, 1),
+                        1 => c.wd = gen_nlri(rng, &cfg, 0, 1),
+                        2 => { let g = rng.usize(0, 12); let nlri = gen_nlri(rng, &cfg, g, 1); c.attrs.insert(rng.usize(0, 1), AttrC::Reach { flags: 0x80, ext: false, fam: g, nh: gen_nh(rng, g), nlri }); }
+                        _ => c.attrs.insert(rng.usize(0, 1), AttrC::Val { v: gen_value(rng, 0), flags: 0x40, ext: false }),
+                    }
+                    if rng.bool() { cfg.1.push(((1, 1), 'b')); for v in c.wd.iter_mut().chain(c.ann.iter_mut()) { v.pid = Some(v.pid.unwrap_or(3)); } }
+                }
+                out.push(case_line(&cfg, &c));
+            }
+        }
+        // ... and in free mixes: the MP_UNREACH_NLRI of a generated content replaced by one of an unsupported family
+        for i in 0..(150 * scale) {
+            let (cfg, mut c) = gen_case(rng, Some(i % 16), 300);
+            let k = loop { let k = (rng.below(300) as u16, rng.u8()); if !FAM_NAMES.iter().any(|x| x.1 == k) { break k; } };
+            let n = match rng.below(3) { 0 => 0, 1 => 1, _ => rng.usize(1, 30) };
+            let u = AttrC::UnreachU { flags: flag_noise(rng, 0x80), ext: rng.chance(1, 3), afi: k.0, safi: k.1, body: rng.bytes(n) };
+            // (in place of it: two MP_UNREACH_NLRI of different content are no well-formed UPDATE)
+            c.attrs.retain(|a| attr_code(a) != 15);
+            let j = rng.usize(0, c.attrs.len()); c.attrs.insert(j, u);
+            if ref_encode(&cfg, &c).len() <= 4096 { out.push(case_line(&cfg, &c)); }
+        }
         out.push(case_line(&(true, vec![]), &Content { wd: vec![], attrs: vec![], ann: vec![] }));
         out.push(case_line(&(false, vec![((1, 1), 'b')]), &Content { wd: vec![], attrs: vec![], ann: vec![] }));
         out.push(enc_line(&(false, vec![((1, 1), 'b')]), &Content { wd: vec![], attrs: vec![], ann: vec![] }, false));
@@ -557,11 +644,34 @@ impl Prop for C01 {
         if w.len() != 5 { return Ok(()); }
         if fnv(w[2]) != w[3] { return Ok(()); } // not a generated case (edited / shrunk line)
         if !reply.starts_with("ok ") { return Err(format!("a well-formed UPDATE was not accepted: `{}`", reply)); }
+        let exp = |n: &str| w[4].split('|').find_map(|e| e.strip_prefix(n).and_then(|r| r.strip_prefix('=')));
+        // items of an expected section (`cw`, or `mw` = `Type:items` / `none`)
+        let sect = |n: &str| -> Vec<String> {
+            let v = exp(n).unwrap_or("-");
+            let v = if n.starts_with('m') { if v == "none" { "-" } else { v.split_once(':').map(|x| x.1).unwrap_or("-") } } else { v };
+            if v == "-" { vec![] } else { v.split(';').map(|x| x.to_string()).collect() }
+        };
+        let list = |v: &str| -> Vec<String> { if v == "-" { vec![] } else { v.split(';').map(|x| x.to_string()).collect() } };
         for e in w[4].split('|') {
             let (name, want) = e.split_once('=').ok_or("malformed expectation")?;
             let got = group(reply, name).ok_or(format!("group `{}` missing", name))?;
             let ok = match name {
+                // the chained / collected accessors report the NLRI of both sections, each section in wire order;
+                // which section comes first is not content (routecore: MP first in withdrawals(), conventional
+                // first in withdrawals_vec())
+                "w" | "a" | "wv" | "av" => {
+                    let (mp, conv) = if name.starts_with('w') { (sect("mw"), sect("cw")) } else { (sect("ma"), sect("ca")) };
+                    match if name.len() == 2 { got.strip_prefix("ok:") } else { Some(got) } {
+                        Some(g) => { let g = list(g); g == [mp.clone(), conv.clone()].concat() || g == [conv, mp].concat() }
+                        None => false,
+                    }
+                }
+                // all_communities: the communities of the four kinds (each kind's order is judged by its own group)
+                "all" => { let (mut a, mut b) = (list(got), list(want)); a.sort(); b.sort(); a == b }
                 "eor" if want == "?" => true,
+                // the marker of a family outside the 13: not recognising it is no violation, naming another family is
+                "eor" if want.starts_with("-or-") => got == "-" || got == &want[4..],
+                "tw" | "ta" => typed_ok(want, got),
                 "attrs" => {
                     let (a, b): (Vec<&str>, Vec<&str>) = (want.split(';').collect(), got.split(';').collect());
                     a.len() == b.len() && a.iter().zip(&b).all(|(x, y)| match x.strip_suffix(":*") {
